@@ -65,6 +65,51 @@ structure GroupPiece where
   stream : Nat
   chans : List (ChanInfo × Chan)
 
+/-- the sub-channels of group `g` (`prepare_groups` / `decode_pass_group_modular`): every
+non-global channel contributes the rectangle of its grid that lies in the group — group
+dimensions divided by the channel's shifts, clipped at the channel's right and bottom edge —
+unless that rectangle is empty -/
+def groupPieceChans (groupDim gcols : Nat) (restCh : List (ChanInfo × Chan)) (g : Nat) :
+    List (ChanInfo × Chan) :=
+  restCh.filterMap fun (inf, c) =>
+    if min (groupDim / 2 ^ inf.hshift.toNat) (inf.w - g % gcols * (groupDim / 2 ^ inf.hshift.toNat)) == 0 ∨
+        min (groupDim / 2 ^ inf.vshift.toNat) (inf.h - g / gcols * (groupDim / 2 ^ inf.vshift.toNat)) == 0 then none
+    else some
+      ({ inf with
+          w := min (groupDim / 2 ^ inf.hshift.toNat) (inf.w - g % gcols * (groupDim / 2 ^ inf.hshift.toNat)),
+          h := min (groupDim / 2 ^ inf.vshift.toNat) (inf.h - g / gcols * (groupDim / 2 ^ inf.vshift.toNat)) },
+        c.crop (g % gcols * (groupDim / 2 ^ inf.hshift.toNat)) (g / gcols * (groupDim / 2 ^ inf.vshift.toNat))
+          (min (groupDim / 2 ^ inf.hshift.toNat) (inf.w - g % gcols * (groupDim / 2 ^ inf.hshift.toNat)))
+          (min (groupDim / 2 ^ inf.vshift.toNat) (inf.h - g / gcols * (groupDim / 2 ^ inf.vshift.toNat))))
+
+/-- is the rectangle of a channel with info `inf` in group `g` non-empty? (the channels of a
+group's sub-image are the non-empty ones, in order) -/
+def groupPieceNonEmpty (groupDim gcols : Nat) (inf : ChanInfo) (g : Nat) : Bool :=
+  min (groupDim / 2 ^ inf.hshift.toNat) (inf.w - g % gcols * (groupDim / 2 ^ inf.hshift.toNat)) != 0 &&
+    min (groupDim / 2 ^ inf.vshift.toNat) (inf.h - g / gcols * (groupDim / 2 ^ inf.vshift.toNat)) != 0
+
+/-- one pasted channel: `w × h` samples, group cell `gw × gh`; pixel `(x, y)` is read from the
+group it lies in, at the channel's position among that group's non-empty channels -/
+def pasteChan (groupDim gcols : Nat) (restInfos : List ChanInfo) (piece : Nat → Option (List Chan))
+    (ci w h gw gh : Nat) : Chan :=
+  Chan.ofFn w h fun x y =>
+    match piece ((y / gh) * gcols + x / gw) with
+    | some chs =>
+      (chs.getD ((List.range ci).filter fun cj =>
+          groupPieceNonEmpty groupDim gcols (restInfos.getD cj default) ((y / gh) * gcols + x / gw)).length
+        default).get (x % gw) (y % gh)
+    | none => 0
+
+/-- paste the group pieces back into full channels (what the decoder does by decoding every
+group's sub-image into its region of the shared grids): `piece g` = the decoded channels of
+group `g` -/
+def pasteGroups (groupDim gcols : Nat) (restInfos : List ChanInfo) (piece : Nat → Option (List Chan)) :
+    List Chan :=
+  (List.range restInfos.length).map fun ci =>
+    pasteChan groupDim gcols restInfos piece ci (restInfos.getD ci default).w (restInfos.getD ci default).h
+      (groupDim / 2 ^ (restInfos.getD ci default).hshift.toNat)
+      (groupDim / 2 ^ (restInfos.getD ci default).vshift.toNat)
+
 /-- encode a Modular frame; `none` when the plan cannot be expressed
 (transform rejected, residual not representable, unsupported layout) -/
 def encodeFrame (img : ImgHdr) (p : FramePlan) : Option FrameOut :=
@@ -104,18 +149,7 @@ def encodeFrame (img : ImgHdr) (p : FramePlan) : Option FrameOut :=
         if restCh.any (fun (inf, _) => inf.hshift < 0 ∨ inf.vshift < 0 ∨ (inf.hshift ≥ 3 ∧ inf.vshift ≥ 3)) then none
         else
           let pieces : List GroupPiece := (List.range numGroups).map fun g =>
-            let gx := g % gcols
-            let gy := g / gcols
-            let chans := restCh.filterMap fun (inf, c) =>
-              let gw := groupDim / 2 ^ inf.hshift.toNat
-              let gh := groupDim / 2 ^ inf.vshift.toNat
-              let x0 := gx * gw
-              let y0 := gy * gh
-              let w := min gw (inf.w - x0)
-              let h := min gh (inf.h - y0)
-              if w == 0 ∨ h == 0 then none
-              else some ({ inf with w := w, h := h }, c.crop x0 y0 w h)
-            { stream := 1 + 3 * numLf + 17 + g, chans }
+            { stream := 1 + 3 * numLf + 17 + g, chans := groupPieceChans groupDim gcols restCh g }
           -- tokens of every stream
           match encodeChannels sb p.tree p.wp 0 globalCh 0 [] [] with
           | none => none
@@ -161,25 +195,8 @@ def encodeFrame (img : ImgHdr) (p : FramePlan) : Option FrameOut :=
                   else
                     -- paste the group pieces back into full coded channels
                     let restInfos := restCh.map (·.1)
-                    let rebuilt := (List.range restInfos.length).map fun ci =>
-                      let inf := restInfos.getD ci default
-                      let gw := groupDim / 2 ^ inf.hshift.toNat
-                      let gh := groupDim / 2 ^ inf.vshift.toNat
-                      Chan.ofFn inf.w inf.h fun x y =>
-                        let g := (y / gh) * gcols + (x / gw)
-                        -- index of this channel among the non-empty channels of piece g
-                        let pc := pieces.getD g { stream := 0, chans := [] }
-                        let before := (List.range ci).filter fun cj =>
-                          let infj := restInfos.getD cj default
-                          let gwj := groupDim / 2 ^ infj.hshift.toNat
-                          let ghj := groupDim / 2 ^ infj.vshift.toNat
-                          let gx := g % gcols
-                          let gy := g / gcols
-                          min gwj (infj.w - gx * gwj) != 0 ∧ min ghj (infj.h - gy * ghj) != 0
-                        let _ := pc
-                        match mPieces.getD g none with
-                        | some (chs, _) => (chs.getD before.length default).get (x % gw) (y % gh)
-                        | none => 0
+                    let rebuilt := pasteGroups groupDim gcols restInfos
+                      fun g => (mPieces.getD g none).map (·.1)
                     some (inverseAll sb img.bits p.wp ts (gch ++ rebuilt))
               some { bytes := writeFrame img f sections p.tocSeed, expected, modelDecoded, paths, numGroups, entUsed := plan.mode }
 
